@@ -748,7 +748,7 @@ def run(ctx: Ctx):
         jobs = []
         for shape in ([(3, 3)] if ctx.quick else [(3, 3), (4, 3)]):
             for q in all_rects(*shape):
-                for op in all_edits(*shape, defaults=not ctx.quick):
+                for op in all_edits(*shape, defaults=not ctx.quick and shape == (3, 3)):
                     save = [["sk"]] if not ctx.quick or len(jobs) % 5 == 0 else []
                     jobs.append((shape, [["e", ["w", q[0], q[1], 2]], ["e", ["w", q[2], q[3], 3]], ["mg", list(q)],
                                          ["e", list(op)], *save]))
@@ -758,14 +758,15 @@ def run(ctx: Ctx):
                     jobs.append(((3, 3), [["mg", list(q)], ["e", list(op)], *([["sk"]] if len(jobs) % 5 == 0 else [])]))
         pairs = [(a, b) for a, b in itertools.combinations(all_rects(3, 3), 2) if disjoint(a, b)]
         for i, (a, b) in enumerate(pairs):
-            if not ctx.quick or i % 16 == 0:
+            if i % (16 if ctx.quick else 3) == 0:
                 for op in all_edits(3, 3, defaults=False):
                     if not ctx.quick or (op[1] == 1 and op[2] is not None):
                         save = [["sv"]] if not ctx.quick or len(jobs) % 5 == 0 else []
                         jobs.append(((3, 3), [["ml", [list(a), list(b)]], ["e", list(op)], *save]))
         _collect(ctx, "every rectangle of a 3x3 table (thorough: and of a 4x3 table) followed by every accepted row/column insertion "
-                      "or deletion of 1 or 2 (any start, appended / last ones; with and without default); pairs of disjoint "
-                      "rectangles followed by such an edit; thorough: each with save + reopen, quick: every fifth",
+                      "or deletion of 1 or 2 (any start, appended / last ones; with and without default); every 16th (thorough: "
+                      "third) pair of disjoint rectangles followed by such an edit; thorough: each with save + reopen, quick: "
+                      "every fifth",
                  pool.map(run_scenario, jobs, chunksize=16), True)
 
         # --- seeded scenarios ---------------------------------------------------------------------------
